@@ -80,6 +80,24 @@ def _replay_run(rec):
     if got != exp:
         return {"kind": "run", "csvpath": text.replace(path, "f.csv"), "scan": scan, "blanks": blanks,
                 "expected": exp, "got": got, "raised_msg": out.get("raised_msg")}
+    # the scan part denotes the same lines whoever drives the csvpath: every third terminal state is also replayed as a one-member
+    # named-paths group, one csvpath after another (collect_paths) and line by line (collect_by_line)
+    if rec.get("_group"):
+        from lib import grouprun, pharness
+
+        for method in ("collect_paths", "collect_by_line"):
+            try:
+                with scratch.silence():
+                    cp = grouprun.setup_project("scan", records, {"g": [f'~ id: m ~ $data[{scan}][yes() push("ln", line_number())]']})
+                    pharness.run_method(cp, method, "g", "data")
+                    r = cp.results_manager.get_named_results("g")[0]
+                    got2 = {"raised": None, "returned": [int(l[0][1:]) for l in r.lines.next()] if hasattr(r.lines, "next") else [int(l[0][1:]) for l in r.lines],
+                            "scanCount": r.csvpath.scan_count, "lnums": list(r.csvpath.variables.get("ln", []))}
+            except Exception as e:  # noqa
+                got2 = {"raised": f"{type(e).__name__}: {e}"[:200]}
+            if got2 != exp:
+                return {"kind": "run", "method": method, "csvpath": f"$data[{scan}][yes() push(\"ln\", line_number())]", "scan": scan, "blanks": blanks,
+                        "expected": exp, "got": got2}
     return None
 
 
@@ -130,6 +148,8 @@ def main(tier):
     if not runs or not tables:
         raise common.MachineryError("TLC emitted no behaviours") if hasattr(common, "MachineryError") else SystemExit(2)
 
+    for i, r in enumerate(runs):
+        r["_group"] = i % 3 == 0
     bad = common.pmap(_replay_run, runs, initializer=_init)
     bad_t = common.pmap(_replay_table, tables, initializer=_init)
     rep.traces = len(runs) + len(tables)
@@ -147,7 +167,7 @@ def main(tier):
         "every scan AST of the quantifier's shapes (*, N*, N, a-b either order, '+' lists of numbers and forward "
         f"ranges ascending/non-overlapping) with bounds 0..{run_bounds[1]} and <= {run_bounds[2]} '+' operands x every "
         f"file of 0..{run_bounds[0]} records with blanks in any position, enumerated by TLC and each replayed through "
-        f"CsvPath.collect(); plus the includes() table of every scan AST with bounds 0..{table_bounds[1]}, "
+        f"CsvPath.collect() (every third also as a one-member named-paths group with collect_paths and collect_by_line); plus the includes() table of every scan AST with bounds 0..{table_bounds[1]}, "
         f"<= {table_bounds[2]} operands. non-trivial = at least one line is offered."
     )
     rep.assumptions = [
